@@ -3,6 +3,8 @@ package props
 import (
 	"fmt"
 	"math/rand"
+	"os"
+	"path/filepath"
 	"regexp"
 	"strings"
 
@@ -346,6 +348,14 @@ func c09All(env *core.Env, c *fmtCase) core.Verdict {
 		tree["shared/"+base] = contents[names[k]]
 		tree[names[k]] = sut.SymlinkPrefix + strings.Repeat("../", strings.Count(names[k], "/")) + "shared/" + base
 	}
+	// one more file may be refused by the formatter (an end marker that closes no block, with lines above it): the
+	// command fails, that file stays as it is, and every other file is formatted as if it were not there
+	refused := ""
+	if rng.Intn(4) == 0 {
+		refused = core.Pick(rng, "regex-assembly/910100.ra", "regex-assembly/932100-chain1.ra", "regex-assembly/include/aa-first.ra", "regex-assembly/exclude/zz.ra")
+		tree[refused] = "  first line of the refused file\nsecond line\n##!<\nbehind the marker\n"
+		anyDirty = true
+	}
 	// hidden entries sort in front of the assembly files of their directory
 	tree["regex-assembly/.DS_Store"] = "\x00binary"
 	tree["regex-assembly/include/.gitkeep"] = ""
@@ -353,7 +363,32 @@ func c09All(env *core.Env, c *fmtCase) core.Verdict {
 	if err := tree.Write(root); err != nil {
 		return core.Incon("cannot write tree: %v", err)
 	}
-	v := core.Verdict{Status: core.Held, Nontrivial: true, Features: []string{"lane:all", fmt.Sprintf("dirty-file-index:%d", dirtyAt)}, Counts: map[string]int{}}
+	// the assembly directory itself may be kept elsewhere and linked into the checkout: directly, through a second
+	// link in the same or in another directory, or by a relative path that leaves the checkout and comes back
+	linkStyle := rng.Intn(10)
+	if linkStyle < 4 {
+		if err := os.Rename(filepath.Join(root, "regex-assembly"), filepath.Join(root, "assembly-kept-elsewhere")); err != nil {
+			return core.Incon("cannot move the assembly directory: %v", err)
+		}
+		var err error
+		switch linkStyle {
+		case 0:
+			err = os.Symlink("assembly-kept-elsewhere", filepath.Join(root, "regex-assembly"))
+		case 1:
+			_ = os.Symlink("assembly-kept-elsewhere", filepath.Join(root, "assembly-current"))
+			err = os.Symlink("assembly-current", filepath.Join(root, "regex-assembly"))
+		case 2:
+			_ = os.MkdirAll(filepath.Join(root, "links"), 0o755)
+			_ = os.Symlink("../assembly-kept-elsewhere", filepath.Join(root, "links", "current"))
+			err = os.Symlink("links/current", filepath.Join(root, "regex-assembly"))
+		default:
+			err = os.Symlink("../crs/assembly-kept-elsewhere", filepath.Join(root, "regex-assembly"))
+		}
+		if err != nil {
+			return core.Incon("cannot link the assembly directory: %v", err)
+		}
+	}
+	v := core.Verdict{Status: core.Held, Nontrivial: true, Features: []string{"lane:all", fmt.Sprintf("dirty-file-index:%d", dirtyAt), fmt.Sprintf("assembly-dir-link-style:%d", linkStyle), fmt.Sprintf("refused-file:%v", refused != "")}, Counts: map[string]int{}}
 	before := sut.Snap(root)
 	for _, mode := range [][]string{nil, {"-o", "github"}} {
 		chk := cli(env, root, nil, append(append([]string{}, mode...), "regex", "format", "--check", "--all")...)
@@ -365,7 +400,14 @@ func c09All(env *core.Env, c *fmtCase) core.Verdict {
 		}
 	}
 	f := cli(env, root, nil, "regex", "format", "--all")
-	if f.Exit != 0 {
+	if refused != "" {
+		if f.Exit == 0 {
+			return core.Viol("format-all-hides-refused-file", "format --all exits 0 although %s is refused: %s", refused, describe(f))
+		}
+		if got, _ := sut.Read(root, refused); got != tree[refused] {
+			return core.Viol("refused-file-rewritten", "format --all refused %s and changed it all the same\n%s", refused, firstDiff(got, tree[refused]))
+		}
+	} else if f.Exit != 0 {
 		return core.Viol("format-all-fails", "format --all fails on well-formed files: %s", describe(f))
 	}
 	for _, n := range names {
@@ -375,7 +417,7 @@ func c09All(env *core.Env, c *fmtCase) core.Verdict {
 		}
 	}
 	chk := cli(env, root, nil, "regex", "format", "--check", "--all")
-	if chk.Exit != 0 {
+	if chk.Exit != 0 && refused == "" {
 		return core.Viol("check-after-fails", "format --check --all fails right after format --all: %s", describe(chk))
 	}
 	return v
@@ -492,6 +534,9 @@ func c10Check(env *core.Env, cc core.Case) core.Verdict {
 	if c.IO != nil {
 		return ioScenarioCheck(env, "C10", c.IO)
 	}
+	if c.Lane == "all" {
+		return c10All(env, c)
+	}
 	root := emptyRoot(env)
 	defer rmCase(root)
 	if err := fmtTree(c).Write(root); err != nil {
@@ -541,6 +586,58 @@ func c10Check(env *core.Env, cc core.Case) core.Verdict {
 	v.Nontrivial = y != c.Content && len(a) >= 2
 	if ok1 {
 		v.Counts["compiling"] = 1
+	}
+	return v
+}
+
+// c10All: format --all on a tree of several files, one of which the formatter may refuse: every file keeps its own
+// sequence of lines (white space aside), nothing travels from one file to the next.
+func c10All(env *core.Env, c *fmtCase) core.Verdict {
+	root := emptyRoot(env)
+	defer rmCase(root)
+	rng := rand.New(rand.NewSource(int64(len(c.Content))*104729 + 5))
+	names := []string{"regex-assembly/920100.ra", "regex-assembly/932100.ra", "regex-assembly/942100-chain1.ra", "regex-assembly/exclude/exc1.ra", "regex-assembly/include/inc1.ra", "regex-assembly/include/zz-last.ra"}
+	tree := sut.Tree{}
+	for i, n := range names {
+		tree[n] = fmtGen(rng, "structured").Content
+		if i == rng.Intn(len(names)) {
+			tree[n] = c.Content
+		}
+	}
+	refused := ""
+	if rng.Intn(2) == 0 {
+		refused = core.Pick(rng, "regex-assembly/910100.ra", "regex-assembly/932100-chain1.ra", "regex-assembly/include/aa-first.ra", "regex-assembly/exclude/aa.ra")
+		tree[refused] = "  first line of the refused file\nsecond line\n" + core.Pick(rng, "##!<\n", "##!> assemble\n  inner\n##!<\n##!<\n") + "behind the marker\n"
+	}
+	if err := tree.Write(root); err != nil {
+		return core.Incon("cannot write tree: %v", err)
+	}
+	v := core.Verdict{Status: core.Held, Nontrivial: true, Features: []string{"lane:all", fmt.Sprintf("refused-file:%v", refused != "")}, Counts: map[string]int{}}
+	f := cli(env, root, nil, "regex", "format", "--all")
+	if f.Class() == sut.ClassTimeout {
+		return core.Incon("watchdog hit, not judged: %s", describe(f))
+	}
+	if f.Class() == sut.ClassFault {
+		return core.Viol("format-crash", "format --all crashed: %s", describe(f))
+	}
+	hdr := append(squeezeLines(raHeader), "")
+	for n, before := range tree {
+		y, _ := sut.Read(root, n)
+		if n == refused {
+			if y != before {
+				return core.Viol("failed-format-writes", "format --all refused %s and changed it all the same\n%s", n, firstDiff(y, before))
+			}
+			continue
+		}
+		a, b := squeezeLines(before), squeezeLines(y)
+		if eqStrings(a, b) || (len(b) >= len(hdr) && eqStrings(b[:len(hdr)], hdr) && eqStrings(a, b[len(hdr):])) || (len(b) == 2 && eqStrings(b[:2], hdr[:2]) && len(a) == 0) {
+			v.Counts["files_compared"]++
+			continue
+		}
+		if y == before {
+			continue // a generated file that the formatter refuses as well
+		}
+		return core.Viol("lines-changed-by-all:"+lineDiffKind(a, b, hdr), "format --all changed more than white space in %s (refused file in the tree: %q)\ncontent  =%s\nformatted=%s", n, refused, core.Q(before), core.Q(y))
 	}
 	return v
 }
@@ -638,11 +735,16 @@ func init() {
 		ID:    "C10",
 		Level: "exploration",
 		Rule: "the same three lanes of .ra contents as C09 (the hostile lane carries comment lines that look like directives, text before a directive, block starts with extra words or glued keywords, unbalanced and decorated end markers, directives with surplus or missing arguments). " +
-			"Oracle: `regex generate` on the file before and after `regex format` gives byte-identical stdout and the same success/failure; the sequence of lines with all white space removed is identical apart from the added header and removed trailing blank lines; a refused file stays untouched. Non-trivial = >= 2 non-blank lines and the file was changed. Plus I/O-fault scenarios (iofault.go): every read - or every read but the first - of one file longer than two buffers fails with EIO (strace injection): the command must fail without printing or writing a partial result, or what it produced must be the complete result.",
+			"Oracle: `regex generate` on the file before and after `regex format` gives byte-identical stdout and the same success/failure; the sequence of lines with all white space removed is identical apart from the added header and removed trailing blank lines; a refused file stays untouched. Plus trees of six generated files and, in half of them, a file the formatter refuses at the front of a directory's walk: after format --all every file keeps its own line sequence, the refused one its bytes. Non-trivial = >= 2 non-blank lines and the file was changed. Plus I/O-fault scenarios (iofault.go): every read - or every read but the first - of one file longer than two buffers fails with EIO (strace injection): the command must fail without printing or writing a partial result, or what it produced must be the complete result.",
 		Cases: func(env *core.Env, rng *rand.Rand) []core.Case {
 			cs := fmtCases(env, rng, 1000, 8000)
 			for _, sc := range ioCases("C10") {
 				cs = append(cs, &fmtCase{Lane: "io", IO: sc})
+			}
+			for i, n := 0, env.N(100, 1000); i < n; i++ {
+				c := fmtGen(rng, "structured")
+				c.Lane = "all"
+				cs = append(cs, c)
 			}
 			return cs
 		},
